@@ -107,6 +107,10 @@ int main(int argc, char** argv){
     if(op=="new"){ p = new TraceIPhreeqc(); inst.push_back(p); std::cout<<"R new "<<inst.size()-1<<" id "<<p->GetId()<<"\n"; }
     else if(op=="use"){ p = inst.at(std::stoi(w[1])); }
     else if(op=="events"){ show_events = (w[1]=="1"); }
+    else if(op=="opt"){ // opt endrow_user_punch 0|1 : source shape of IPhreeqc::EndRow (see trace.hpp)
+      if(w.size()==3 && w[1]=="endrow_user_punch"){ TestSelectedOutput::endrow_checks_user_punch() = (w[2]=="1"); std::cout<<"R opt "<<w[1]<<" "<<w[2]<<"\n"; }
+      else std::cout<<"bad-op opt\n";
+    }
     else if(op=="destroy"){ int i=std::stoi(w[1]); delete inst.at(i); if(p==inst[i]) p=0; inst[i]=0; std::cout<<"R destroy\n"; }
     else if(!p){ std::cout<<"R noinst\n"; }
     else if(op=="load"){ p->ev.clear(); int r=p->LoadDatabase(hx::unhex(w[1]).c_str()); flush_events(); std::cout<<"R load "<<r<<"\n"; }
